@@ -90,6 +90,54 @@ ALL['C07'] = {
                    {'id': 0, 'name': 'q', 'type': 'Host', 'shorthand': False, 'defenses': {'guard': 0.5}, 'extras': None}]}),
 }
 
+# ---- attack-graph level (hand-built graph descriptions, see mtv/aggen.py) -----------------------------
+from mtv.aggen import node as N, DIST
+
+def G(nodes, edges, attackers=None):
+    nodes = [dict(n, name=f's{i}') for i, n in enumerate(nodes)]
+    return {'nodes': nodes, 'edges': edges, 'attackers': attackers or []}
+
+ALL['C08'] = {
+    'or-step-with-self-loop-and-nonviable-parent': ('random-graphs', {'graph': G([N('or'), N('exist', False)], [[0, 0], [1, 0]]), 'orders': [[0, 1], [1, 0]]}),
+    'and-step-with-self-loop-and-unnecessary-parent': ('random-graphs', {'graph': G([N('and'), N('exist', True)], [[0, 0], [1, 0]]), 'orders': [[0, 1], [1, 0]]}),
+    'ttc-gated-parent-node-order': ('random-graphs', {'graph': G([N('exist', True), N('or', ttc=DIST), N('and')], [[0, 1], [0, 2], [1, 2]]),
+                                                      'orders': [[0, 1, 2], [2, 1, 0], [1, 0, 2]], 'edge_orders': [None, [2, 1, 0], [1, 2, 0]]}),
+}
+FIX = {'nodes': [N('defense', 1.0, name='d'), N('or', name='a'), N('and', name='b'), N('or', name='c')],
+       'edges': [[0, 1], [1, 2], [0, 2], [2, 3], [3, 3], [1, 3], [1, 3]], 'attackers': [{'name': 'Att0', 'reached': [1, 2, 3]}]}
+def H9(ops):
+    return ('hand-built-graph-histories', {'start': 'ag', 'graph': FIX, 'ops': ops})
+gen_case = {'start': 'gen', 'spec': seqlang1, 'model': dict(model([A('Host', 'h0'), A('Host', 'h1')], [(0, [0], [1])]),
+            attackers=[{'name': 'Attacker0', 'id': None, 'entry_points': [[0, ['access']]]}])}
+ALL['C09'] = {
+    'add-node-with-live-id': H9([['add_node', 2, 1]]),
+    'remove-node-reached-by-attacker': H9([['remove_node', 1]]),
+    'remove-attacker-with-three-reached-steps': H9([['remove_attacker', 0]]),
+    'prune-node-reached-by-attacker': H9([['analyse'], ['prune']]),
+    'regenerate-after-attach-and-add': ('generated-graph-histories', dict(gen_case, ops=[['attach'], ['add_node', 0, 0], ['regen']])),
+}
+ALL['C11'] = {
+    'remove-attacker-with-three-reached-steps': ('hand-built-graphs', {'start': 'ag', 'graph': FIX, 'ops': [['remove', 0]]}),
+}
+ALL['C13'] = {
+    'two-adjacent-prunable-nodes': ('random-labels', {'graph': G([N('or', viable=False), N('or', viable=False), N('or')], [[0, 1], [1, 2]]), 'analyse': False}),
+    'prunable-node-reached-by-attacker': ('random-labels', {'graph': G([N('or', viable=False), N('or')], [[0, 1]], [{'name': 'A', 'reached': [0, 1]}]), 'analyse': False}),
+}
+ALL['C14'] = {
+    'ttc-dict-shared-with-copy': ('hand-built-graphs', {'start': 'ag', 'graph': G([N('or', ttc=dict(DIST), tags=['x'])], [], [{'name': 'A', 'reached': [0]}]),
+                                                        'mutations': [[0, 'ttc', 0, 0], [1, 'tag', 0, 0]]}),
+}
+tagl = lang([asset('Host', [step('access', tags=['hidden', 'trace'], reaches=[S('breach')]), step('breach', 'and'),
+                            step('guard', 'defense', ttc=fun('Enabled'), reaches=[S('breach')])])],
+            [assoc('Seq', 'Host', 'prev', 'Host', 'nxt')])
+base10 = {'spec': tagl, 'model': dict(model([A('Host', 'h0')], []), attackers=[]), 'attach': False, 'compromises': [], 'analyse': True,
+          'prune': False, 'node_extras': [], 'fmt': 0, 'with_model': 0}
+ALL['C10'] = {
+    'tags-come-back-as-list': ('roundtrip', dict(base10, extra_attackers=[])),
+    'two-attackers-sharing-a-name': ('roundtrip', dict(base10, fmt=1, with_model=1, extra_attackers=[
+        {'name': 'Eve', 'id': None, 'reached': [0, 1], 'n_entry': 1}, {'name': 'Eve', 'id': None, 'reached': [1], 'n_entry': 0}])),
+}
+
 if __name__ == '__main__':
     for pid, cases in ALL.items():
         out = os.path.join(ROOT, pid)
